@@ -35,8 +35,11 @@ def run(ctx):
     for c in range(ctx.n(10, 40)):
         k = ctx.rng.randrange(1, 5)
         polys = []
+        # release areas of every size: degrees across, or a fish farm / outfall a few tens of metres across
+        # (1e-4 degrees of latitude are about 11 m)
+        small = ctx.rng.random() < 0.35
         for i in range(k):
-            r = ctx.rng.choice([0.3, 1.0, 2.0])
+            r = ctx.rng.choice([1e-4, 3e-4, 1e-3]) if small else ctx.rng.choice([0.3, 1.0, 2.0])
             polys.append(geom.random_polygon(ctx.rng, 10.0 + 6.0 * i, 60.0 + 0.3 * i, r))
         areas = [abs(geom.shoelace(p)) for p in polys]
         A = sum(areas)
@@ -46,7 +49,7 @@ def run(ctx):
             lat, lon, polynum = mk.latlon_from_poly(plat, plon, N)
         cs = dict(polys=polys, N=N, areas=areas)
         ctx.case(key=("shape", repr(polys)), nontrivial=True, sample=dict(npoly=k, areas=areas, N=N) if c < 2 else None)
-        ctx.branch("npoly=%d" % k)
+        ctx.branch("npoly=%d" % k); ctx.branch("small_polygons" if small else "large_polygons")
         for i in range(k):
             cnt = int(np.sum(polynum == i))
             ctx.oracle(binom_ok(cnt, N, areas[i] / A), "C17.polygon_share", SITE,
